@@ -44,6 +44,19 @@ def gen_case(ctx, i):
     return case
 
 
+def _tally(ctx, q, r):
+    """distribution of what the generator reaches: query kind x outcome class of the real code"""
+    if isinstance(r, dict) and "err" in r:
+        cls = r["err"][0]
+    elif isinstance(r, dict) and "ok" in r:
+        cls = "ok"
+    else:
+        cls = "parts"
+    d = ctx.extra_cov.setdefault("reached_outcomes", {})
+    key = f"{q[0]}:{cls}"
+    d[key] = d.get(key, 0) + 1
+
+
 def judge_case(ctx, case, R, M, S):
     if any(s == "inexact" for s in S):
         ctx.hist["skipped_inexact"] = ctx.hist.get("skipped_inexact", 0) + 1
@@ -52,6 +65,7 @@ def judge_case(ctx, case, R, M, S):
     nq = len(case["queries"])
     for i in range(len(R)):
         q = case["queries"][i % nq]
+        _tally(ctx, q, R[i])
         sub = {"content": case["content"], "queries": [q], "decl_seed": case["decl_seed"]}
         if i >= nq:
             sub["edit"] = case["edit"]
